@@ -17,7 +17,7 @@ GRAMMAR_EXCLUSIONS = [
     "alternation after a string: alternative (string: takes the rest in Zope, simpleTAL splits first)",
     "tal:content together with tal:replace, duplicate statements / duplicate attribute names on one element",
     "variables / mapping keys named like Python attributes of dict, list, str (path traversal tries getattr first in both simpleTAL and Zope)",
-    "iterators as repeat sequences",
+    "repeat/NAME/end and repeat/NAME/length while repeating over an iterator (TAL does not define them without a length; iterators, generators and next-only objects ARE repeat sources: empty, one-shot, exhausted by an earlier loop)",
 ]
 
 
@@ -411,7 +411,10 @@ def k_eval(prop, name, cases, shard=400):
 
 
 def k_out(prop, name, rng, n):
-    vals = talgen.HOSTILE + talgen.BENIGN + ["", " ", "a\nb", "\u00e9", "&&&", "<<>>", "\"\"", "''"]
+    refs = ["&amp;", "&lt;", "&#39;", "&#x3C;", "&nbsp;", "&quot;"]
+    marks = ["<script>alert(1)</script>", "<b>", "\" onmouseover=\"x", "</p><p>", "<img src=x>", ">"]
+    vals = talgen.HOSTILE + talgen.BENIGN + ["", " ", "a\nb", "\u00e9", "&&&", "<<>>", "\"\"", "''"] + \
+        [a + " " + b for a in refs for b in marks] + [b + a for a in refs[:3] for b in marks[:3]]
     inputs = []
     for i in range(n):
         tag = rng.choice(talgen.BLOCK_TAGS + list(talgen.VOID))
